@@ -105,7 +105,8 @@ Section WithTable.
   Definition event_entries (items : list (bytes * option bytes)) : list entry := items.
 
   (* ---- the state transformer ---- *)
-  Definition spec_next (st : ost) (o : op) : ost :=
+  (* [flight]: what an OpSaveDuring does (defined below from the other cases) *)
+  Definition spec_next_gen (flight : ost -> option N -> list dop -> ost) (st : ost) (o : op) : ost :=
     match o with
     | OpAssign name v =>
         match dfind_ci name opts with
@@ -137,7 +138,89 @@ Section WithTable.
         | _, _ => st
         end
     | OpRead _ | OpNeedsSave | OpSocks => st
+    | OpSaveDuring rej ds => flight st rej ds
     end.
+
+  (* ---- a save() whose SETCONF is not answered yet ----
+     save() sends what is pending at that moment (its snapshot).  What is changed afterwards is not
+     part of that SETCONF: when Tor acknowledges it, Tor holds the snapshot, and exactly the options
+     whose intended value still IS the acknowledged one stop being pending; a change made after the
+     save was sent stays pending and is sent by the next save.  A rejected answer changes nothing.
+     A save() called while another is unanswered sends everything pending at that moment, after the
+     earlier one is answered (the control connection carries one command at a time). *)
+  Definition spec_base : ost -> op -> ost := spec_next_gen (fun st _ _ => st).
+
+  Definition ival_eqb (a b : ival) : bool :=
+    match a, b with
+    | IScalar x, IScalar y => beqb x y
+    | IList x, IList y => list_eqb atom_eqb x y
+    | _, _ => false
+    end.
+
+  Definition flight_send (st : ost) (q : list (list (bytes * ival))) : list (list (bytes * ival)) :=
+    match s_pend st with [] => q | p => q ++ [p] end.
+
+  Definition dop_next (sq : ost * list (list (bytes * ival))) (d : dop) : ost * list (list (bytes * ival)) :=
+    match op_of_dop d with
+    | Some o => (spec_base (fst sq) o, snd sq)
+    | None => (fst sq, flight_send (fst sq) (snd sq))
+    end.
+
+  Definition prune (pend snap : list (bytes * ival)) : list (bytes * ival) :=
+    filter (fun p : bytes * ival =>
+              negb (match dget (fst p) snap with Some iv => ival_eqb iv (snd p) | None => false end)) pend.
+
+  Definition answer (rej : option N) (st : ost) (snap : list (bytes * ival)) : ost :=
+    match rej with
+    | None => {| s_store := apply_entries opts (s_store st) (pend_entries snap); s_pend := prune (s_pend st) snap |}
+    | Some _ => st
+    end.
+
+  Definition flight_run (st : ost) (ds : list dop) : ost * list (list (bytes * ival)) :=
+    fold_left dop_next ds (st, flight_send st []).
+
+  Definition flight_next (st : ost) (rej : option N) (ds : list dop) : ost :=
+    fold_left (answer rej) (snd (flight_run st ds)) (fst (flight_run st ds)).
+
+  Definition spec_next : ost -> op -> ost := spec_next_gen flight_next.
+
+  (* Outside the envelope: an option is ASSIGNED again while a save() that carries it is unanswered, and
+     when that save is acknowledged its intended value equals the acknowledged one (assigned the same value
+     again, or changed and changed back).  Is that "a change made since the save"?  The property does not
+     say; the oracle (prune: compare values) would say no.  [ras]: per unanswered save, the options
+     assigned since it was sent. *)
+  Fixpoint flight_ras (sq : ost * list (list (bytes * ival))) (ras : list (list bytes)) (ds : list dop) : list (list bytes) :=
+    match ds with
+    | [] => ras
+    | d :: ds' =>
+        let ras1 :=
+          match d with
+          | DAssign name v =>
+              match dfind_ci name opts with
+              | Some (cn, k) => match spec_validate k v with Some _ => map (cons cn) ras | None => ras end
+              | None => ras
+              end
+          | DSave => match s_pend (fst sq) with [] => ras | _ => ras ++ [[]] end
+          | _ => ras
+          end in
+        flight_ras (dop_next sq d) ras1 ds'
+    end.
+
+  Fixpoint ambiguous_acks (pend : list (bytes * ival)) (q : list (list (bytes * ival))) (ras : list (list bytes)) : bool :=
+    match q, ras with
+    | snap :: q', ra :: ras' =>
+        existsb (fun cn => match dget cn snap, dget cn pend with
+                           | Some a, Some b => ival_eqb a b
+                           | _, _ => false
+                           end) ra
+        || ambiguous_acks (prune pend snap) q' ras'
+    | _, _ => false
+    end.
+
+  Definition flight_ambiguous (st : ost) (ds : list dop) : bool :=
+    let q0 := flight_send st [] in
+    ambiguous_acks (s_pend (fst (flight_run st ds))) (snd (flight_run st ds))
+                   (flight_ras (st, q0) (map (fun _ => []) q0) ds).
 
   (* ---- judging observations ---- *)
   Definition read_ok (st : ost) (name : bytes) (r : rres) : bool :=
@@ -192,7 +275,7 @@ Section WithTable.
   Definition SocksPort_name : bytes := bs "SocksPort".
 
   (* [st] is the state BEFORE the operation *)
-  Definition spec_check (st : ost) (o : op) (ob : obs) : bool :=
+  Definition spec_check_gen (flightc : ost -> option N -> list dop -> obs -> bool) (st : ost) (o : op) (ob : obs) : bool :=
     let st' := spec_next st o in
     match o with
     | OpAssign name v =>
@@ -276,7 +359,63 @@ Section WithTable.
             end
         | None => false
         end
+    | OpSaveDuring rej ds => flightc st rej ds ob
     end.
+
+  (* ---- judging an OpSaveDuring ---- *)
+  Definition check_base : ost -> op -> obs -> bool := spec_check_gen (fun _ _ _ _ => false).
+
+  (* every operation performed during the flight is judged as the ordinary operation it is, in the
+     state it is performed in (what is pending then includes what the unanswered save has sent) *)
+  Fixpoint flight_inner_ok (sq : ost * list (list (bytes * ival))) (ds : list dop) (rs : list ires) : bool :=
+    match ds, rs with
+    | [], [] => true
+    | d :: ds', r :: rs' =>
+        (match op_of_dop d, ores_of_ires r with
+         | Some o, Some x => check_base (fst sq) o {| o_wrote := []; o_res := x |}
+         | None, None => match r with ISent => true | _ => false end
+         | _, _ => false
+         end) && flight_inner_ok (dop_next sq d) ds' rs'
+    | _, _ => false
+    end.
+
+  (* the outcome of each save() call: nothing pending -> done at once; otherwise Tor's answer *)
+  Definition call_outcome (rej : option N) (st : ost) : sres :=
+    match s_pend st with
+    | [] => SOk
+    | _ => match rej with None => SOk | Some c => SFail c end
+    end.
+  Fixpoint flight_outs (rej : option N) (sq : ost * list (list (bytes * ival))) (ds : list dop) : list sres :=
+    match ds with
+    | [] => []
+    | d :: ds' =>
+        (match op_of_dop d with None => [call_outcome rej (fst sq)] | Some _ => [] end)
+        ++ flight_outs rej (dop_next sq d) ds'
+    end.
+
+  (* one SETCONF per save() that had something to send, in the order of the calls, each with
+     exactly what was pending when it was called *)
+  Fixpoint lines_ok (q : list (list (bytes * ival))) (lines : list bytes) : bool :=
+    match q, lines with
+    | [], [] => true
+    | snap :: q', line :: lines' =>
+        (match parse_setconf line with Some es => entries_match snap es | None => false end) && lines_ok q' lines'
+    | _, _ => false
+    end.
+
+  Definition flight_check (st : ost) (rej : option N) (ds : list dop) (ob : obs) : bool :=
+    let st' := flight_next st rej ds in
+    match o_res ob with
+    | XFlight rs outs ns snap =>
+        flight_inner_ok (st, flight_send st []) ds rs
+        && lines_ok (snd (flight_run st ds)) (o_wrote ob)
+        && list_eqb sres_eqb outs (call_outcome rej st :: flight_outs rej (st, flight_send st []) ds)
+        && Bool.eqb ns (negb (is_nil (s_pend st')))
+        && snap_ok st' opts snap
+    | _ => false
+    end.
+
+  Definition spec_check : ost -> op -> obs -> bool := spec_check_gen flight_check.
 
   Fixpoint spec_run (st : ost) (ops : list op) (obs_ : list obs) : bool :=
     match ops, obs_ with
@@ -495,7 +634,7 @@ Definition copy_ok (kd ks : kind) : bool :=
   | _ => false
   end.
 
-Definition op_ok (opts : list (bytes * kind)) (o : op) : bool :=
+Definition op_ok_gen (flt : option N -> list dop -> bool) (opts : list (bytes * kind)) (o : op) : bool :=
   match o with
   | OpAssign name v =>
       match dfind_ci name opts with Some (_, k) => assign_ok k v | None => false end
@@ -511,7 +650,13 @@ Definition op_ok (opts : list (bytes * kind)) (o : op) : bool :=
       | Some (_, kd), Some (_, ks) => copy_ok kd ks
       | _, _ => false
       end
+  | OpSaveDuring rej ds => flt rej ds
   end.
+Definition op_ok_base : list (bytes * kind) -> op -> bool := op_ok_gen (fun _ _ => false).
+Definition op_ok (opts : list (bytes * kind)) : op -> bool :=
+  op_ok_gen (fun rej ds =>
+               (match rej with Some c => (500 <=? c) && (c <=? 599) | None => true end)
+               && forallb (fun d => match op_of_dop d with Some o => op_ok_base opts o | None => true end) ds) opts.
 
 (* names assigned before the attachment are option names, spelled as Tor spells them *)
 Definition pre_ok (opts : list (bytes * kind)) (pre : option (list (bytes * pyval))) : bool :=
